@@ -36,6 +36,7 @@
 #include "crypto_aes.h"
 #include "crypto_aesctr.h"
 #include "crypto_dh.h"
+#include "crypto_verify_bytes.h"
 #include "crypto_entropy.h"
 #include "md5.h"
 #include "sha1.h"
@@ -636,6 +637,25 @@ do_ctr(char * l)
 	nsecrets = 0;
 }
 
+/* verify HEXA HEXB : crypto_verify_bytes on two exact-size buffers of the same length (the shorter one decides) */
+static void
+do_verify(char * l)
+{
+	static char ha[1 << 15], hb[1 << 15];
+	static uint8_t ta[1 << 14], tb[1 << 14];
+	size_t la, lb, n;
+	uint8_t * a, * b, rc;
+
+	if (sscanf(l, "verify %32767s %32767s", ha, hb) != 2) return;
+	la = unhex(ha, ta, sizeof(ta)); lb = unhex(hb, tb, sizeof(tb));
+	n = la < lb ? la : lb;
+	a = malloc(n ? n : 1); b = malloc(n ? n : 1);
+	memcpy(a, ta, n); memcpy(b, tb, n);
+	rc = crypto_verify_bytes(a, b, n);
+	vt_begin("verify"); vt_hex("a", a, n); vt_hex("b", b, n); vt_int("rc", rc); vt_end();
+	free(a); free(b);
+}
+
 static void
 limbs_le(const uint8_t * be, size_t n, uint8_t * le)
 {
@@ -934,6 +954,7 @@ main(int argc, char ** argv)
 		else if (strncmp(line, "hmac ", 5) == 0) do_hmac(line);
 		else if (strncmp(line, "pbkdf2 ", 7) == 0) do_pbkdf2(line);
 		else if (strncmp(line, "crc ", 4) == 0) do_crc(line);
+		else if (strncmp(line, "verify ", 7) == 0) do_verify(line);
 		else if (strncmp(line, "aes ", 4) == 0) do_aes(line);
 		else if (strncmp(line, "aesfirst ", 9) == 0) do_aesfirst(line);
 		else if (strncmp(line, "aesfresh ", 9) == 0) do_aesfresh(line);
